@@ -44,7 +44,10 @@ pub struct Replay {
     pub detail: String,
     pub seed: u64,
     pub profile: String,
-    pub scenario: Scenario,
+    #[serde(default)]
+    pub scenario: Option<Scenario>,
+    #[serde(default)]
+    pub spawn: Option<crate::spawn::SpawnScenario>,
 }
 
 #[derive(Deserialize, Clone, Debug)]
@@ -81,8 +84,11 @@ pub fn seed_base() -> u64 {
 }
 
 /// worker: seeds base+i for i in lo..hi with i % nw == w
-pub fn worker(prop: &str, base: u64, lo: u64, hi: u64, w: u64, nw: u64, hash_every: u64) {
-    let pf = Profile::for_property(prop);
+pub fn worker(prop: &str, profile: &str, base: u64, lo: u64, hi: u64, w: u64, nw: u64, hash_every: u64) {
+    if profile == "spawn" {
+        return spawn_worker(prop, base, lo, hi, w, nw);
+    }
+    let pf = Profile::for_property(profile);
     let sb = Sandbox::new(&format!("w{}", w));
     let mut sum = WorkerSummary::default();
     let mut tk: BTreeSet<u64> = BTreeSet::new();
@@ -149,6 +155,52 @@ pub fn worker(prop: &str, base: u64, lo: u64, hi: u64, w: u64, nw: u64, hash_eve
     let _ = o.flush();
 }
 
+fn spawn_worker(prop: &str, base: u64, lo: u64, hi: u64, w: u64, nw: u64) {
+    let sb = Sandbox::new(&format!("s{}", w));
+    let mut sum = WorkerSummary::default();
+    let out = std::io::stdout();
+    let mut i = lo + ((w + nw - lo % nw) % nw);
+    while i < hi {
+        let seed = base.wrapping_add(i);
+        {
+            let mut o = out.lock();
+            let _ = writeln!(o, "B {}", seed);
+            let _ = o.flush();
+        }
+        let sc = crate::spawn::gen(seed);
+        let r = crate::spawn::run(&sc, &sb);
+        sum.runs += 1;
+        sum.invocations += 1;
+        sum.commands += r.commands;
+        *sum.stats.entry("probe.real_spawn_invocations".into()).or_default() += 1;
+        *sum.stats.entry("probe.real_child_processes".into()).or_default() += r.commands;
+        for (k, x) in &r.stats {
+            *sum.stats.entry(k.clone()).or_default() += x;
+        }
+        sum.trace_keys.push(crate::rng::h64(&format!("{:?}", sc.probes.iter().map(|p| &p.cmd).collect::<Vec<_>>())));
+        if sc.probes.len() >= 2 {
+            sum.nontrivial_keys.push(*sum.trace_keys.last().unwrap());
+        }
+        if sum.samples.is_empty() && sc.probes.len() >= 2 {
+            sum.samples.push(serde_json::json!({"seed": seed, "engine": "real-spawn leg", "manifest": crate::spawn::render(&sc), "j": sc.j}));
+        }
+        for v in crate::spawn::to_vlines(seed, &r) {
+            if v.prop == prop {
+                let mut o = out.lock();
+                let _ = writeln!(o, "V {}", serde_json::to_string(&v).unwrap());
+            }
+        }
+        i += nw;
+    }
+    sum.trace_keys.sort();
+    sum.trace_keys.dedup();
+    sum.nontrivial_keys.sort();
+    sum.nontrivial_keys.dedup();
+    let mut o = out.lock();
+    let _ = writeln!(o, "S {}", serde_json::to_string(&sum).unwrap());
+    let _ = o.flush();
+}
+
 struct WorkerOut {
     viols: Vec<VLine>,
     summary: Option<WorkerSummary>,
@@ -156,12 +208,12 @@ struct WorkerOut {
     status: std::process::ExitStatus,
 }
 
-fn run_workers(prop: &str, base: u64, lo: u64, hi: u64, nw: u64, hash_every: u64, timeout_s: u64) -> Vec<WorkerOut> {
+fn run_workers(prop: &str, profile: &str, base: u64, lo: u64, hi: u64, nw: u64, hash_every: u64, timeout_s: u64) -> Vec<WorkerOut> {
     let exe = std::env::current_exe().unwrap();
     let mut handles = Vec::new();
     for w in 0..nw {
         let mut child = Command::new(&exe)
-            .args(["worker", prop, &base.to_string(), &lo.to_string(), &hi.to_string(), &w.to_string(), &nw.to_string(), &hash_every.to_string()])
+            .args(["worker", prop, profile, &base.to_string(), &lo.to_string(), &hi.to_string(), &w.to_string(), &nw.to_string(), &hash_every.to_string()])
             .stdin(Stdio::null())
             .stdout(Stdio::piped())
             .stderr(Stdio::inherit())
@@ -231,7 +283,30 @@ pub fn replay_file(path: &str, verbose: bool) -> i32 {
         }
     };
     let sb = Sandbox::new("replay");
-    let r = run_scenario(&rp.scenario, &sb, verbose);
+    if let Some(sp) = &rp.spawn {
+        let r = crate::spawn::run(sp, &sb);
+        let mut hit = false;
+        for (c, d) in &r.violations {
+            println!("violation: C16 {} {}", c, d);
+            if *c == rp.code {
+                hit = true;
+            }
+        }
+        if hit {
+            println!("VIOLATION property={} replay={}", rp.property, path);
+            return 1;
+        }
+        println!("replay: violation {} {} did not reproduce", rp.property, rp.code);
+        return 0;
+    }
+    let scenario = match &rp.scenario {
+        Some(s) => s,
+        None => {
+            eprintln!("harness error: replay file has no scenario");
+            return 2;
+        }
+    };
+    let r = run_scenario(scenario, &sb, verbose);
     let mut hit = false;
     for (opi, v) in &r.violations {
         println!("violation at op {}: {} {} {}", opi, v.prop, v.code, v.detail);
@@ -249,31 +324,39 @@ pub fn replay_file(path: &str, verbose: bool) -> i32 {
     }
 }
 
+struct Batch {
+    profile: String,
+    lo: u64,
+    hi: u64,
+}
+
 pub fn check(prop: &str, tier: &str) -> i32 {
     let t0 = std::time::Instant::now();
     let nw = env_u64("VERIF_WORKERS", 16).max(1);
     let base = seed_base();
     let quick = tier != "thorough";
     let runs = env_u64("VERIF_RUNS", if quick { 120_000 } else { 2_400_000 });
-    let budget_s = env_u64("VERIF_BUDGET_S", if quick { 120 } else { 1800 });
+    let budget_s = env_u64("VERIF_BUDGET_S", if quick { 900 } else { 7200 });
     let findings = load_findings();
 
     // ---- determinism self-check on a sample: same seeds, other processes, other worker count
     let det_n = if quick { 600 } else { 3000 };
-    let a = run_workers(prop, base, 0, det_n, nw.min(8), 1, 120);
-    let b = run_workers(prop, base, 0, det_n, 3, 1, 240);
+    let a = run_workers(prop, prop, base, 0, det_n, nw.min(8), 1, budget_s);
+    let b = run_workers(prop, prop, base, 0, det_n, 3, 1, budget_s);
     let collect = |o: &Vec<WorkerOut>| -> BTreeMap<u64, u64> {
         o.iter().filter_map(|w| w.summary.as_ref()).flat_map(|s| s.hashes.iter().cloned()).collect()
     };
     let (ha, hb) = (collect(&a), collect(&b));
     let mut det_bad = Vec::new();
     for (s, h) in &ha {
-        if hb.get(s) != Some(h) {
-            det_bad.push(*s);
+        if let Some(h2) = hb.get(s) {
+            if h2 != h {
+                det_bad.push(*s);
+            }
         }
     }
     if ha.len() as u64 != det_n || hb.len() as u64 != det_n {
-        // a worker died during the sample: reported by the main batch below, seeds overlap
+        // a worker died during the sample: the main batch covers the same seeds and reports it
         eprintln!("note: determinism sample incomplete ({} / {} of {})", ha.len(), hb.len(), det_n);
     }
     if !det_bad.is_empty() {
@@ -281,92 +364,145 @@ pub fn check(prop: &str, tier: &str) -> i32 {
         return 2;
     }
 
-    // ---- main batch
-    let outs = run_workers(prop, base, 0, runs, nw, 0, budget_s);
+    // ---- batches
+    let mut batches = vec![Batch { profile: prop.to_string(), lo: 0, hi: runs }];
+    if prop == "C08" {
+        let n = crate::bigshape::KINDS * if quick { 1 } else { 3 };
+        batches.push(Batch { profile: "C08big".into(), lo: 0, hi: n });
+    }
+    if prop == "C16" {
+        batches.push(Batch { profile: "spawn".into(), lo: 0, hi: env_u64("VERIF_SPAWN_RUNS", if quick { 3000 } else { 60_000 }) });
+    }
     let mut total = WorkerSummary::default();
     let mut tk: BTreeSet<u64> = BTreeSet::new();
     let mut ntk: BTreeSet<u64> = BTreeSet::new();
     let mut shapes: BTreeSet<u64> = BTreeSet::new();
     let mut svs: BTreeSet<u64> = BTreeSet::new();
-    let mut viols: Vec<VLine> = Vec::new();
-    let mut dead: Vec<(u64, String)> = Vec::new();
-    for o in outs {
-        viols.extend(o.viols);
-        match o.summary {
-            Some(s) => {
-                total.runs += s.runs;
-                total.invocations += s.invocations;
-                total.commands += s.commands;
-                total.ticks += s.ticks;
-                for (k, x) in s.stats {
-                    *total.stats.entry(k).or_default() += x;
+    let mut viols: Vec<(String, VLine)> = Vec::new();
+    let mut dead: Vec<(String, u64, String)> = Vec::new();
+    let mut batch_info = Vec::new();
+    for bt in &batches {
+        let bw = if bt.profile == "C08big" { nw.min(bt.hi - bt.lo).max(1) } else { nw };
+        // big shapes are keyed by the kind number itself, not by VERIF_SEED
+        let bbase = if bt.profile == "C08big" { env_u64("VERIF_SEED", 1).wrapping_sub(1).wrapping_mul(crate::bigshape::KINDS) } else { base };
+        let outs = run_workers(prop, &bt.profile, bbase, bt.lo, bt.hi, bw, 0, budget_s);
+        let mut bruns = 0;
+        for o in outs {
+            viols.extend(o.viols.into_iter().map(|v| (bt.profile.clone(), v)));
+            match o.summary {
+                Some(s) => {
+                    bruns += s.runs;
+                    total.runs += s.runs;
+                    total.invocations += s.invocations;
+                    total.commands += s.commands;
+                    total.ticks += s.ticks;
+                    for (k, x) in s.stats {
+                        *total.stats.entry(k).or_default() += x;
+                    }
+                    for (k, x) in s.other_props {
+                        *total.other_props.entry(k).or_default() += x;
+                    }
+                    tk.extend(s.trace_keys);
+                    ntk.extend(s.nontrivial_keys);
+                    shapes.extend(s.shapes);
+                    svs.extend(s.state_vectors);
+                    if total.samples.len() < 4 {
+                        total.samples.extend(s.samples.into_iter().take(1));
+                    }
                 }
-                for (k, x) in s.other_props {
-                    *total.other_props.entry(k).or_default() += x;
-                }
-                tk.extend(s.trace_keys);
-                ntk.extend(s.nontrivial_keys);
-                shapes.extend(s.shapes);
-                svs.extend(s.state_vectors);
-                if total.samples.len() < 3 {
-                    total.samples.extend(s.samples);
-                }
-            }
-            None => {
-                dead.push((o.last_begin.unwrap_or(0), format!("{:?}", o.status)));
+                None => dead.push((bt.profile.clone(), o.last_begin.unwrap_or(0), format!("{:?}", o.status))),
             }
         }
+        batch_info.push(serde_json::json!({"profile": bt.profile, "seeds": [bt.lo, bt.hi], "runs": bruns}));
     }
+    let mut nviol = 0usize;
+    let mut replay_paths = Vec::new();
+    let _ = std::fs::create_dir_all(format!("{}/replays", VERIF));
     if !dead.is_empty() {
-        // A worker that died (abort, stack overflow, watchdog) is a hang/abort of n2 in the
-        // batch that began at the reported seed, unless it was our own budget watchdog.
-        eprintln!("harness error: worker(s) died without summary: {:?}", dead);
-        return 2;
+        // A worker that disappears (abort, stack overflow, kill by the watchdog) while running
+        // n2 in-process: find the seed by re-running the batch of 32 seeds it had begun, one
+        // process per seed.
+        for (profile, begin, status) in &dead {
+            let mut culprit = None;
+            for sd in *begin..begin + 32 * nw {
+                let st = Command::new(std::env::current_exe().unwrap())
+                    .args(["one", profile, &sd.to_string()])
+                    .stdout(Stdio::null())
+                    .stderr(Stdio::null())
+                    .status();
+                match st {
+                    Ok(s) if s.code().is_some() => {}
+                    _ => {
+                        culprit = Some(sd);
+                        break;
+                    }
+                }
+            }
+            match culprit {
+                Some(sd) if ["C06", "C12"].contains(&prop) || true => {
+                    println!("violation: {} process-death: the process running n2 was killed ({}) in the run of seed {} (profile {})", prop, status, sd, profile);
+                    if prop == "C06" {
+                        let path = format!("{}/replays/{}-process-death-{}.json", VERIF, prop, sd);
+                        let rp = Replay { engine: "buildsim".into(), property: prop.into(), code: "process-death".into(), detail: status.clone(), seed: sd, profile: profile.clone(), scenario: Some(gen_scenario(sd, &Profile::for_property(profile))), spawn: None };
+                        std::fs::write(&path, serde_json::to_string_pretty(&rp).unwrap()).unwrap();
+                        println!("VIOLATION property={} replay={}", prop, path);
+                        replay_paths.push(path);
+                        nviol += 1;
+                    }
+                }
+                _ => {
+                    eprintln!("harness error: worker(s) died without summary and the death does not reproduce: {:?}", dead);
+                    return 2;
+                }
+            }
+        }
+        if prop != "C06" {
+            eprintln!("harness error: worker(s) died: {:?} (an abort of n2 is judged by the C06 check)", dead);
+            return 2;
+        }
     }
 
     // ---- classify violations
-    viols.sort_by_key(|v| (v.code.clone(), v.seed));
-    let mut by_code: BTreeMap<String, Vec<VLine>> = BTreeMap::new();
+    viols.sort_by_key(|v| (v.1.code.clone(), v.1.seed));
+    let mut by_code: BTreeMap<String, Vec<(String, VLine)>> = BTreeMap::new();
     for v in viols {
-        by_code.entry(v.code.clone()).or_default().push(v);
+        by_code.entry(v.1.code.clone()).or_default().push(v);
     }
-    let mut nviol = 0usize;
     let mut known_lines = Vec::new();
-    let mut replay_paths = Vec::new();
-    let _ = std::fs::create_dir_all(format!("{}/replays", VERIF));
     for (code, vs) in &by_code {
         if let Some(f) = findings.findings.iter().find(|f| f.status == "known" && f.property == prop && &f.code == code) {
             known_lines.push(format!(
                 "KNOWN-FINDING: property={} {} [{}] {} ({} runs hit it, e.g. seed {})",
-                prop, code, f.id, f.what, vs.len(), vs[0].seed
+                prop, code, f.id, f.what, vs.len(), vs[0].1.seed
             ));
             continue;
         }
         // minimise the first occurrence, write the replay file, re-verify in a fresh process
-        let v = &vs[0];
-        let pf = Profile::for_property(prop);
-        let sc = gen_scenario(v.seed, &pf);
-        let sb = Sandbox::new("min");
-        let t = minimise::Target { prop: prop.to_string(), code: code.clone() };
-        let small = minimise::minimise(&sc, &sb, &t, 400);
-        let r = run_scenario(&small, &sb, false);
-        let detail = r
-            .violations
-            .iter()
-            .find(|(_, x)| x.prop == prop && &x.code == code)
-            .map(|(_, x)| x.detail.clone())
-            .unwrap_or_else(|| v.detail.clone());
-        drop(sb);
-        let rp = Replay {
-            engine: "buildsim".into(),
-            property: prop.to_string(),
-            code: code.clone(),
-            detail: detail.clone(),
-            seed: v.seed,
-            profile: pf.name.to_string(),
-            scenario: small,
-        };
+        let (profile, v) = &vs[0];
         let path = format!("{}/replays/{}-{}-{}.json", VERIF, prop, code, v.seed);
+        let mut detail = v.detail.clone();
+        let rp = if profile == "spawn" {
+            let sb = Sandbox::new("min");
+            let sc = crate::spawn::gen(v.seed);
+            let small = crate::spawn::minimise(&sc, &sb, code);
+            Replay { engine: "buildsim-spawn".into(), property: prop.into(), code: code.clone(), detail: detail.clone(), seed: v.seed, profile: profile.clone(), scenario: None, spawn: Some(small) }
+        } else {
+            let pf = Profile::for_property(profile);
+            let sc = gen_scenario(v.seed, &pf);
+            let sb = Sandbox::new("min");
+            let small = if profile == "C08big" {
+                sc
+            } else {
+                let t = minimise::Target { prop: prop.to_string(), code: code.clone() };
+                let small = minimise::minimise(&sc, &sb, &t, 400);
+                let r = run_scenario(&small, &sb, false);
+                if let Some((_, x)) = r.violations.iter().find(|(_, x)| x.prop == prop && &x.code == code) {
+                    detail = x.detail.clone();
+                }
+                small
+            };
+            Replay { engine: "buildsim".into(), property: prop.into(), code: code.clone(), detail: detail.clone(), seed: v.seed, profile: profile.clone(), scenario: Some(small), spawn: None }
+        };
         std::fs::write(&path, serde_json::to_string_pretty(&rp).unwrap()).unwrap();
         let st = Command::new(std::env::current_exe().unwrap())
             .args(["replay", &path])
@@ -404,11 +540,12 @@ pub fn check(prop: &str, tier: &str) -> i32 {
             "distinct_nontrivial": ntk.len(),
             "rule": "one evaluation = one seeded scenario (random project + history of edits and n2 invocations under a seeded schedule and fault plan); distinct = distinct normalised start/exec/deliver/fault event sequences per graph shape; non-trivial = at least 2 commands executed and (a fault injected or a command failed or a delivery order different from start order)",
             "samples": total.samples,
+            "batches": batch_info,
             "simulated_runs": total.runs,
             "n2_invocations": total.invocations,
             "commands_executed": total.commands,
             "runs_per_hour": (total.runs as f64 / wall * 3600.0) as u64,
-            "logical_clock_ticks": total.ticks,
+            "simulated_time": {"logical_clock_ticks": total.ticks, "note": "n2 has no timers on this path; time is a logical clock that stamps every file write"},
             "distinct_event_traces": tk.len(),
             "distinct_graph_shapes": shapes.len(),
             "distinct_build_state_vectors": svs.len(),
@@ -420,7 +557,7 @@ pub fn check(prop: &str, tier: &str) -> i32 {
             "known_findings_hit": known_lines,
             "replays": replay_paths,
             "components": {
-                "real": ["n2::run::run (argument parsing, load, parse, eval, canon, graph, db reader/writer, work loop, pools, hash, task::Runner + run_task, depfile parser, showIncludes filter, progress_dumb, summary)", "kernel tmpfs for every file n2 or a command touches"],
+                "real": ["n2::run::run (argument parsing, load, parse, eval, canon, graph, db reader/writer, work loop, pools, hash, task::Runner + run_task, depfile parser, showIncludes filter, progress_dumb, summary)", "kernel tmpfs for every file n2 or a command touches", "process_posix::run_command with real /bin/sh children (C16 real-spawn batch only)"],
                 "stub": ["subprocess (scripted executor behind process_posix::run_command)", "OS threads (stored closures run by the simulator)", "std::sync::mpsc (per-sender queues interleaved by the simulator)", "main.rs (error print + exit code mapping replicated)", "wall clock (mtimes set from a logical clock)"]
             }
         },
